@@ -302,7 +302,9 @@ def origins(body, op_or_local, path=(), max_steps=4000, transparent=TRANSPARENT_
                                 out.add(("const",) + const_value(op))
                             else:
                                 wl.append((op["pl"]["l"], _strip_path(op["pl"]["p"]) + tuple(sub[1:])))
-                    if not picked:
+                    if not picked and rv.get("ak") == "adt" and not ops:
+                        out.add(("enum", rv["adt"], rv["variant"]))
+                    elif not picked:
                         out.add(("agg", rv.get("adt") or rv.get("closure") or rv.get("ak"), bb))
                         for op in ops:
                             if op.get("k") == "const":
